@@ -38,14 +38,17 @@ def pwv(x=X, q='q', th='thresholds'):
 
 _WELL_FORMED = ("len(thresholds) >= 2 and not (thresholds[0] is None and thresholds[len(thresholds) - 1] is None and len(thresholds) == 2) "
                 "and forall(lambda q: thresholds[q] is not None, 1, len(thresholds) - 1)")
+_MALFORMED = ("forall(lambda q: thresholds[q] is None, 0, len(thresholds)) "
+              "or exists(lambda q: thresholds[q] is None, 1, len(thresholds) - 1)")
 _KIND = ("iff(isinstance(typed(RES[0], 'Expression'), bioMin), thresholds[0] is None) "
          "and iff(isinstance(typed(RES[0], 'Expression'), bioMax), thresholds[0] is not None)")
 _SAME_THRESHOLDS = "len(thresholds) == old(len(thresholds)) and forall(lambda q: same(thresholds[q], old(thresholds[q])), 0, len(thresholds))"
 
 contract(Q + 'piecewise_variables', P,
          types={'thresholds': 'list[float | None]'},      # `variable`: any value (name, Variable node, anything else)
-         requires={'well_formed': _WELL_FORMED},
-         raises={'BiogemeError': 'not isinstance(variable, str) and not isinstance(variable, Variable)'},
+         requires={'at_least_two_thresholds': 'len(thresholds) >= 2'},
+         # malformed input is refused, and nothing else is
+         raises={'BiogemeError': f'({_MALFORMED}) or (not isinstance(variable, str) and not isinstance(variable, Variable))'},
          hints=['c17d_variable_meaning(variable)'],
          # frame: decided by the static obligation C17:static:piecewise_variables:mutates-only-own-list (the loop re-binds the
          # local list, see contracts/c17_builders.py)
@@ -64,3 +67,27 @@ contract(Q + 'piecewise_variables', P,
              'thresholds_kept': "len(thresholds) == eye and " + _SAME_THRESHOLDS,
              'values': f"forall(lambda q: c05c_val(results[q]) == {pwv()}, 0, 1 + _k)"}} for k in (1, 2, 3)},
          replay=_replay_code('c17_piecewise.py', 'piecewise_variables:each-variable'))
+
+# ------------------------------------------------------------------------------------------------ piecewise_formula
+# value of the returned tree == sum_q value(beta_q) * (q-th piecewise variable at x): the closed form SUM of
+# contracts/piecewise.py with the coefficients read as the values of the coefficient expressions (for increasing thresholds
+# the max/min form PWV_DOC and the case form PWV of that module coincide: obligation `doc_form_is_case_form` below)
+_BAD_VARIABLE = 'not isinstance(variable, str) and not isinstance(variable, Variable)'
+_BQ = "c05c_val(typed(betas, 'list[Expression]')[q])"
+SUM_DOC = f"sum_range(lambda q: {_BQ} * {pwv()}, 0, len(thresholds) - 1)"
+
+_DEFAULT_LOOP = {'count': "len(typed(betas, 'list[Expression]')) == _k",
+                 'parameters': "forall(lambda q: isinstance(typed(betas, 'list[Expression]')[q], Beta), 0, _k)"}
+
+contract(Q + 'piecewise_formula', P, nla_uf=True,
+         types={'thresholds': 'list[float | None]', 'betas': 'list[Expression] | None'},
+         requires={'at_least_two_thresholds': 'len(thresholds) >= 2'},
+         raises={'BiogemeError': f"({_BAD_VARIABLE}) or ({_MALFORMED}) or "
+                                 "(betas is not None and len(typed(betas, 'list[Expression]')) != len(thresholds) - 1)"},
+         modifies=[],
+         hints=['c17d_variable_meaning(the_variable)'],
+         # loop creating the default parameters (path betas is None only; reached on two separate paths - the variable
+         # given as a node / by name -, which the core numbers 1 and 2)
+         invariants={1: {'clauses': _DEFAULT_LOOP}, 2: {'clauses': _DEFAULT_LOOP}},
+         ensures={'value_is_sum_of_coefficient_times_variable': f"implies(betas is not None, c05c_val(result) == {SUM_DOC})"},
+         replay=_replay_code('c17_piecewise.py', 'piecewise_formula:equals-function'))
